@@ -1477,12 +1477,23 @@ func (db *DatabaseCollectionWithUser) PutExistingCurrentVersion(ctx context.Cont
 	originalNewDocAtts := maps.Clone(opts.NewDoc.Attachments())
 	originalNewDoc := captureIncomingRevision(opts.NewDoc)
 	originalRevTreeHistory := opts.RevTreeHistory
+	// UpdateWithIncomingHLV folds the local vector into the incoming one in place, so each attempt works on its own copy
+	// of the vector that was received
+	originalNewDocHLV := opts.NewDocHLV.Copy()
+	newDocSharesHLV := opts.NewDoc.HLV == opts.NewDocHLV
+	originalNewDocOwnHLV := opts.NewDoc.HLV.Copy()
 	doc, newRevID, err = db.updateAndReturnDoc(ctx, opts.NewDoc.ID, true, &opts.NewDoc.DocExpiry, nil, docUpdateEvent, opts.ExistingDoc, false, updateRevCache, func(doc *Document) (resultDoc *Document, resultAttachmentData updatedAttachments, createNewRevIDSkipped bool, updatedExpiry *uint32, resultErr error) {
 		// (Be careful: this block can be invoked multiple times if there are races!)
 		opts.NewDoc.SetAttachments(maps.Clone(originalNewDocAtts))
 		// conflict resolution in an earlier attempt may have rewritten the incoming revision and its history
 		originalNewDoc.restore(opts.NewDoc)
 		opts.RevTreeHistory = originalRevTreeHistory
+		opts.NewDocHLV = originalNewDocHLV.Copy()
+		if newDocSharesHLV {
+			opts.NewDoc.HLV = opts.NewDocHLV
+		} else {
+			opts.NewDoc.HLV = originalNewDocOwnHLV.Copy()
+		}
 
 		var isSgWrite bool
 		var crc32Match bool
